@@ -35,7 +35,7 @@ impl Exec for TypeFilter {
     fn exec(&self, interpreter: &mut Interpreter) -> ExecResult {
         let iterator = self.iterator.exec(interpreter)?;
         #[cfg(feature = "verif")]
-        let _helper = crate::verif::helper_scope();
+        let _helper = crate::verif::helper_scope("type_filter");
         let mut interpreter = interpreter.create_layer();
         interpreter.insert("iterator".into(), iterator);
         let default_value = Variable::of_type(&self.var_type).unwrap_or(Variable::Void);
